@@ -138,6 +138,15 @@ def instances(cls: type, limit: Optional[int] = None) -> List[Tuple[str, Dict[st
     return out
 
 
+def carries_mark(x: Any) -> bool:
+    """Does the typed object itself still hold the marker member (a class that drops
+    unknown members is part A's business, not a driver failure)?"""
+    try:
+        return MARK in keys_of(modelops.to_json(x))
+    except Exception:  # noqa: BLE001
+        return False
+
+
 def model_arms(annotation: Any) -> Tuple[List[type], bool]:
     """(model classes, accepts-plain-dict) of a parameter annotation."""
     ann, _ = wiregen._strip_optional(annotation)
@@ -158,10 +167,11 @@ def arg_variants(annotation: Any, limit: Optional[int] = None) -> List[Dict[str,
     out = []
     for c in classes:
         for label, w, inst in instances(c, limit):
-            out.append({"desc": f"{c.__name__}[{label}]", "value": inst, "wire": w, "aliases": populated_aliases(inst)})
+            out.append({"desc": f"{wiregen.short(c)}[{label}]", "value": inst, "wire": w, "aliases": populated_aliases(inst),
+                        "mark": carries_mark(inst)})
             if takes_dict:
-                out.append({"desc": f"dict<{c.__name__}>[{label}]", "value": dict(w), "wire": w,
-                            "aliases": populated_aliases_wire(c, w)})
+                out.append({"desc": f"dict<{wiregen.short(c)}>[{label}]", "value": dict(w), "wire": w,
+                            "aliases": populated_aliases_wire(c, w), "mark": True})
     return out
 
 
@@ -264,12 +274,24 @@ def ok_reply(result_obj: Dict[str, Any]):
 # ---------------------------------------------------------------------------
 # drivers: site -> list of result()/failed() dicts
 # ---------------------------------------------------------------------------
+def with_homonyms(annotation: Any) -> Any:
+    """The annotation widened by every discovered model class that bears the same
+    name as one of its arms (the package has two ToolResult, Tool, ToolInputSchema;
+    the helpers are duck-typed on model_dump, so either can be handed in)."""
+    classes, _ = model_arms(annotation)
+    names = {c.__name__ for c in classes}
+    extra = [c for c in wiregen.discover()[0] if c.__name__ in names and c not in classes]
+    if not extra:
+        return annotation
+    return typing.Union[tuple([annotation] + extra)]
+
+
 def drive_sync_function(fn: Callable, param: str) -> List[Dict[str, Any]]:
     hints = typing.get_type_hints(fn)
     out = []
-    for v in arg_variants(hints[param]):
+    for v in arg_variants(with_homonyms(hints[param])):
         try:
-            out.append(result(v["desc"], v["wire"], v["aliases"], plain(fn(v["value"]))))
+            out.append(result(v["desc"], v["wire"], v["aliases"], plain(fn(v["value"])), v["mark"]))
         except Exception as e:  # noqa: BLE001
             out.append(failed(v["desc"], e))
     return out
@@ -319,7 +341,7 @@ def d_request_user_input():
         try:
             with patched_uuid():
                 on_loop(main)
-            out.append(result(f"ElicitationParams[{label}]", w, populated_aliases(inst), plain(sent[0])))
+            out.append(result(f"ElicitationParams[{label}]", w, populated_aliases(inst), plain(sent[0]), carries_mark(inst)))
         except Exception as e:  # noqa: BLE001
             out.append(failed(label, e))
     return out
@@ -347,7 +369,7 @@ def d_send_completion_complete():
             with patched_uuid():
                 _, written = on_loop(main)
             out.append(result(desc, {"ref": r["wire"], "argument": a["wire"]}, sorted(r["aliases"] + a["aliases"]),
-                              written[0]))
+                              written[0], r["mark"] or a["mark"]))
         except Exception as e:  # noqa: BLE001
             out.append(failed(desc, e))
     return out
@@ -392,7 +414,7 @@ def d_handle_roots_list_request():
         desc = "roots=[" + ",".join(lbl for lbl, _, _ in g) + "]"
         try:
             msg = on_loop(lambda: M.handle_roots_list_request([i for _, _, i in g], "r-1"))
-            out.append(result(desc, [w for _, w, _ in g], [], plain(msg)))
+            out.append(result(desc, [w for _, w, _ in g], [], plain(msg), any(carries_mark(i) for _, _, i in g)))
         except Exception as e:  # noqa: BLE001
             out.append(failed(desc, e))
     return out
@@ -422,7 +444,7 @@ def d_send_sampling_create_message():
                 _, written = on_loop(main)
             al = sorted({tuple(a) for m in ms for a in m["aliases"]} | ({tuple(a) for a in p["aliases"]} if p else set()))
             out.append(result(desc, {"messages": [m["wire"] for m in ms], "modelPreferences": p["wire"] if p else None},
-                              [list(a) for a in al], written[0]))
+                              [list(a) for a in al], written[0], any(m["mark"] for m in ms)))
         except Exception as e:  # noqa: BLE001
             out.append(failed(desc, e))
     return out
@@ -447,7 +469,7 @@ def d_handle_create_message_request():
             handler = M.SamplingHandler(Provider())
             params = {"messages": [{"role": "user", "content": {"type": "text", "text": "q"}}], "maxTokens": 8}
             got = on_loop(lambda: handler.handle_create_message_request(params, "r-1"))
-            out.append(result(f"content={v['desc']}", v["wire"], v["aliases"], plain(got)))
+            out.append(result(f"content={v['desc']}", v["wire"], v["aliases"], plain(got), v["mark"]))
         except Exception as e:  # noqa: BLE001
             out.append(failed(v["desc"], e))
     return out
@@ -471,7 +493,7 @@ def d_protocol_handler_initialize():
             handler = ProtocolHandler(ii, ci)
             resp, _sid = on_loop(lambda: handler._handle_initialize(parse_message(req), None))
             out.append(result(desc, {"serverInfo": iw, "capabilities": cw}, populated_aliases(ii) + populated_aliases(ci),
-                              plain(resp)))
+                              plain(resp), carries_mark(ii) or carries_mark(ci)))
         except Exception as e:  # noqa: BLE001
             out.append(failed(desc, e))
     return out
